@@ -69,7 +69,7 @@ func init() {
 	})
 	register(&Prop{
 		ID:    "C02",
-		Rules: []func(*core.Ctx){RFunnel, RQuick, RQuickOmit, RQuickSame, RLiveOps, RWholeText, RRtlFilter, RFFFDFilter, ROrigin, RMask, RStepDecode, RTextEnd},
+		Rules: []func(*core.Ctx){RFunnel, RQuick, RQuickOmit, RQuickSame, RLiveOps, RWholeText, RRtlFilter, RFFFDFilter, ROrigin, RMask, RStepDecode, RTextEnd, RStartSent, RBoundDec},
 		Explanation: "All entry points reach the one scan funnel (R-FUNNEL, call graph); the capture-free quick program is active only where the returned match is merely nil-tested or read for position (R-QUICK, SSA def-use), and the liveness scan that builds it masks opcode flags (R-MASK); the left-to-right raw-string filter is never consulted for right-to-left programs (R-RTLFILTER, dominance); a filter candidate never becomes the \\G origin (R-ORIGIN, interprocedural taint). " +
 			"These are structural preconditions for the entry points to agree; that scan returns the same result for the same arguments, the index conversions and the Replace/Split folds are decided elsewhere or not at all.",
 	})
@@ -99,7 +99,7 @@ func init() {
 	})
 	register(&Prop{
 		ID:    "C16",
-		Rules: []func(*core.Ctx){RSub, RSubFirst, RBitmap, RCaseRecur, RRangeFlush, RCatTable, RNegChars, RFlipAdd, RNegFresh, RKeyInj, ROr20, RWordSib, RCopyAll, RUnionRet, RGapRune, RSetCodec, RCatsToo, RDialectSib, RCatPred, RRangePend, RTentative, RPosixASCII, RUnionNeg, RAnySub, RAddMono, RDistinct, REscLiteral},
+		Rules: []func(*core.Ctx){RSub, RSubFirst, RBitmap, RCaseRecur, RRangeFlush, RCatTable, RNegChars, RFlipAdd, RNegFresh, RKeyInj, ROr20, RWordSib, RCopyAll, RUnionRet, RGapRune, RSetCodec, RCatsToo, RDialectSib, RCatPred, RRangePend, RTentative, RPosixASCII, RUnionNeg, RAnySub, RAddMono, RDistinct, REscLiteral, RNegClear, REnumPos},
 		Explanation: "R-SUB (no observer or transformer of a class ignores its subtraction; canonicalize rewrites only under sub == nil; addSet / enumeration operands are tested), R-BITMAP (the ASCII fast path is charInSlow tabulated over exactly 0..127, guarded, never copied, never stale), R-CASERECUR (a subtraction is parsed with the same case flag), R-CATTABLE (a category name is accepted only with a table), R-NEGCHARS (callers of GetSetChars honour negation), R-FLIPADD (members are never added to a class after canonicalize has rewritten it in negated form without restoring the positive form first), R-NEGFRESH (negate is switched on only for sets created on the spot or known empty). " +
 			"Membership itself — range arithmetic, the lowercase tables, category evaluation order — is NOT decided.",
 	})
